@@ -146,6 +146,12 @@ class SccCaptionLine:
     self._texts = [self._current_text]
     self.set_cursor(0)
 
+  def delete_to_end(self):
+    """Deletes the text from the cursor position to the end of the line"""
+    index = self._texts.index(self._current_text)
+    del self._texts[index + 1:]
+    self._current_text.truncate()
+
   def is_empty(self) -> bool:
     """Returns whether the line text is empty or not"""
     return self.get_length() == 0
